@@ -4,10 +4,13 @@
    `unroll_closed` / `unroll_iomap` (closed form of the result of unroll), `run` (iterated evalc of the sequential machine)
    and `is_run` (the same machine, relationally).  Proved, for ALL acyclic circuits, ALL n and ALL state pairings: the
    simulation clause (by induction on the step), the free-input clause and the io-map shape of the closed form, and that
-   `run` is the unique run.  Not proved, decided per case by Run_C09.agree/holds: `C09_closed_form_full` (API-level model =
-   closed form), lint-cleanliness of the result, and the whole of `C09_sequential_unroll_full`. *)
+   `run` is the unique run.  `C09_model_is_closed_form` / `C09_seq_model_is_closed_form` link the API-level models to
+   the closed forms (graph and io-map equality whenever the model returns), so `C09_unroll_partial` and
+   `C09_sequential_unroll_partial` are about the models themselves.  Not proved, decided per case by Run_C09.agree/holds:
+   `C09_total_full` (the model returns inside the guards), lint-cleanliness of the result, and for sequential circuits the
+   step from the stripped circuit to the flop circuit itself (`C09_sequential_unroll_full`). *)
 From stdpp Require Import strings gmap sets fin_sets.
-From CG Require Import Base.Oracle Model.Unroll Model.Lint Proofs.UnrollProofs.
+From CG Require Import Base.Oracle Model.Unroll Model.Lint Proofs.UnrollProofs Proofs.UnrollLink.
 Open Scope string_scope.
 
 (* the node the map gives for io o at step t carries the value obtained by running c for t+1 steps, the initial state
@@ -65,18 +68,66 @@ Theorem C09_sequential_simulates_partial : ∀ cs n sio prefix U' w,
 Proof. exact seq_result_simulates. Qed.
 Print Assumptions C09_sequential_simulates_partial.
 
-(* --- what is NOT proved (visible; decided per case by Run_C09) --- *)
-Definition C09_seq_closed_form_full : Prop := ∀ C n d q ign afo iv ru prefix U m CS sio,
-  lint_clean C → sequential_unroll C n d q ign afo iv ru prefix = Ok (U, m) → seq_stripped C d q ign ru = Ok (CS, sio) →
+(* --- THE LINK: whenever the API-level models (Base/Api.v calls in source order) return, they return the closed forms.
+       Proved through the specifications of add / connect / set_type / set_output / add_subcircuit (C06, C07). --- *)
+Theorem C09_model_is_closed_form : ∀ C n sio prefix U m,
+  inputs_undriven (c_g C) → (∀ kv, kv ∈ sio → kv.2 ∈ inputs (c_g C)) → NoDup sio.*2 →
+  unroll_names_ok (c_g C) n sio prefix →
+  unroll C n sio prefix = Ok (U, m) →
+  U = {| c_name := "circuit"; c_g := unroll_closed (c_g C) n sio prefix; c_bbs := ∅ |} ∧ m = unroll_iomap (c_g C) n prefix.
+Proof. exact unroll_closed_form. Qed.
+Print Assumptions C09_model_is_closed_form.
+Theorem C09_seq_model_is_closed_form : ∀ C n d q ign afo iv ru prefix U m CS sio,
+  seq_stripped C d q ign ru = Ok (CS, sio) →
+  inputs_undriven (c_g CS) → (∀ kv, kv ∈ sio → kv.2 ∈ inputs (c_g CS)) → NoDup sio.*2 →
+  unroll_names_ok (c_g CS) n sio prefix → iv_ok C iv →
+  sequential_unroll C n d q ign afo iv ru prefix = Ok (U, m) →
   weaker (unroll_closed (c_g CS) n sio prefix) (c_g U) ∧ m = unroll_iomap (c_g CS) n prefix.
-Definition C09_closed_form_full : Prop := ∀ C n sio prefix,
+Proof. exact seq_closed_form. Qed.
+Print Assumptions C09_seq_model_is_closed_form.
+
+(* --- the property about the models (DESIGN.md C09_unroll): what `unroll C n sio prefix` returns has the io map
+       io_map[o][t] = <o>_<prefix>_<t>, free inputs = step-0 state inputs + per-step copies of the other inputs, and every
+       consistent valuation carries at io_map[o][t] the value of running c for t+1 steps.  Missing for the unconditional
+       statement: `C09_total_full` (the model does return) and lint-cleanliness of the result. --- *)
+Theorem C09_unroll_partial : ∀ C n sio prefix U m,
+  lint_clean C → closed (c_g C) → acyclic (c_g C) → free_are_inputs (c_g C) →
+  sio_ok (c_g C) sio → unroll_names_ok (c_g C) n sio prefix →
+  unroll C n sio prefix = Ok (U, m) →
+  c_bbs U = ∅ ∧ dom m = io_of (c_g C) ∧
+  (∀ x, x ∈ inputs (c_g U) ↔ ∃ t io, t < n ∧ io ∈ inputs (c_g C) ∧ x = io_name io prefix t ∧ (state_src sio io = None ∨ t = 0)) ∧
+  ∀ w, consistent (c_g U) w →
+    let st := λ v, w (io_name v prefix 0) in
+    let ins := λ t i, w (io_name i prefix t) in
+    ∀ o t, o ∈ io_of (c_g C) → t < n →
+      m !! o ≫= (.!! t) = Some (io_name o prefix t) ∧ w (io_name o prefix t) = run (c_g C) sio t st ins o.
+Proof. exact unroll_spec. Qed.
+Print Assumptions C09_unroll_partial.
+(* sequential_unroll: whatever it returns simulates the stripped circuit (flop pins turned into io, other pins removed)
+   cycle by cycle, from the constants / free values its step-0 state nodes carry *)
+Theorem C09_sequential_unroll_partial : ∀ C n d q ign afo iv ru prefix U m CS sio,
+  seq_stripped C d q ign ru = Ok (CS, sio) →
+  lint_clean CS → closed (c_g CS) → acyclic (c_g CS) → free_are_inputs (c_g CS) →
+  sio_ok (c_g CS) sio → unroll_names_ok (c_g CS) n sio prefix → iv_ok C iv →
+  sequential_unroll C n d q ign afo iv ru prefix = Ok (U, m) →
+  dom m = io_of (c_g CS) ∧
+  ∀ w, consistent (c_g U) w →
+    let st := λ v, w (io_name v prefix 0) in
+    let ins := λ t i, w (io_name i prefix t) in
+    ∀ o t, o ∈ io_of (c_g CS) → t < n →
+      m !! o ≫= (.!! t) = Some (io_name o prefix t) ∧ w (io_name o prefix t) = run (c_g CS) sio t st ins o.
+Proof. exact seq_spec. Qed.
+Print Assumptions C09_sequential_unroll_partial.
+
+(* --- what is NOT proved (visible; decided per case by Run_C09) --- *)
+Definition C09_total_full : Prop := ∀ C n sio prefix,
   lint_clean C → bb_free C → closed (c_g C) → acyclic (c_g C) → 1 ≤ n → sio_ok (c_g C) sio → unroll_names_ok (c_g C) n sio prefix →
-  unroll C n sio prefix = Ok ({| c_name := "circuit"; c_g := unroll_closed (c_g C) n sio prefix; c_bbs := ∅ |}, unroll_iomap (c_g C) n prefix).
+  ∃ U m, unroll C n sio prefix = Ok (U, m).
 Definition C09_result_lint_clean_full : Prop := ∀ C n sio prefix,
   lint_clean C → closed (c_g C) → sio_ok (c_g C) sio → unroll_names_ok (c_g C) n sio prefix →
   lint_clean {| c_name := "circuit"; c_g := unroll_closed (c_g C) n sio prefix; c_bbs := ∅ |}.
-(* sequential_unroll: refinement to the cycle-accurate simulator of the flop circuit (state = Q pins, next state = D pins),
-   for every initial_values form; stated through unroll on the stripped circuit *)
+(* the remaining distance to the property text for sequential circuits: the stripped circuit `seq_stripped` versus the flop
+   circuit itself (state = Q pins, next state = D pins), the output marks and the initial-value types; decided by Run_C09.holds *)
 Definition C09_sequential_unroll_full : Prop := ∀ C n d q ign afo iv ru prefix U m,
   lint_clean C → closed (c_g C) → acyclic (c_g C) → 1 ≤ n →
   sequential_unroll C n d q ign afo iv ru prefix = Ok (U, m) →
